@@ -118,8 +118,8 @@ struct Named { uintptr_t lo, hi; std::string name; };
 static std::vector<Named> g_named;
 
 // ------------------------------------------------------------------ shadow memory
-struct Cell { uintptr_t addr; uint32_t gen; int8_t wt; uint8_t shared; uint32_t wclk; uint32_t wpc; uint32_t rclk[MAXT]; uint32_t rpc[MAXT]; };
-static const size_t NCELL = 1u << 20;
+struct Cell { uintptr_t addr; uint32_t gen; int16_t wt; uint8_t shared; uint32_t wclk; uint32_t wpc; uint32_t rclk[MAXT]; uint32_t rpc[MAXT]; };
+static const size_t NCELL = (size_t)1 << SIM_NCELL_LOG;
 static Cell *g_cells = nullptr; static uint32_t g_gen = 1; static size_t g_cells_used = 0;
 static Cell *cell_for(uintptr_t a, bool create) {
     size_t h = (size_t)(sim_mix64((uint64_t)a) & (NCELL - 1));
@@ -183,7 +183,7 @@ static void check_byte(int t, uintptr_t a, bool is_write, uint32_t pc) {
             if (!c->shared) { c->shared = 1; g_res->write_shared_locations++; }
             if (c->rclk[u] > vc[u]) report_race("read-write", u, c->rpc[u], t, pc, a);
         }
-        c->wt = (int8_t)t; c->wclk = vc[t]; c->wpc = pc;
+        c->wt = (int16_t)t; c->wclk = vc[t]; c->wpc = pc;
     } else { c->rclk[t] = vc[t]; c->rpc[t] = pc; }
 }
 
@@ -237,9 +237,27 @@ static void hand_to(int me, int next, bool wait_back, int forced = 0) {
 }
 
 // a scheduling point reached by the baton holder
+// A thread that keeps hitting atomic / sync events at one and the same site is spin-waiting for somebody else: a strict
+// priority (PCT) or long-quantum policy would let it spin for ever, which is an artefact of the policy, not a property of
+// the code.  After 48 such events in a row it yields to the next runnable thread.
+static thread_local uintptr_t t_spin_pc = 0; static thread_local int t_spin_n = 0;
+static bool g_spin_event = false; static uintptr_t g_spin_pc = 0; static bool g_yield_now = false;
 static void sched_point() {
     int me = t_tid;
     g_step++;
+    if (g_spin_event && g_spin_pc == t_spin_pc) t_spin_n++; else { t_spin_n = 0; t_spin_pc = g_spin_event ? g_spin_pc : 0; }
+    if (t_spin_n >= 48 || g_yield_now) {
+        t_spin_n = 0; g_yield_now = false;
+        if (g_cfg->policy == 3) TH[me].prio = g_pct_low--;      // under PCT a waiting thread drops below everybody, or it would be re-picked at once
+        int best = -1; long bp = LONG_MIN;
+        for (int k = 1; k <= g_nthreads; k++) {
+            int j = (me + k) % g_nthreads;
+            if (j == me || TH[j].state != ST_RUNNABLE) continue;
+            if (g_cfg->policy != 3) { best = j; break; }
+            if (TH[j].prio > bp) { bp = TH[j].prio; best = j; }
+        }
+        if (best >= 0) { g_res->spin_yields++; hand_to(me, best, true); return; }
+    }
     if (g_step > g_cfg->step_budget) {
         if (!g_res->budget_exceeded) g_res->budget_exceeded = true;
         g_stop_all = true;
@@ -271,11 +289,13 @@ static void unblock_waiters(const void *obj) {
 // are the same.  This collapses table-scan loops (is_tld compares the same input string 1591 times) into one event.
 static thread_local uintptr_t t_last_a = 0; static thread_local size_t t_last_n = 0; static thread_local uintptr_t t_last_pc = 0; static thread_local uint64_t t_last_step = ~0ULL;
 static inline bool repeat_read(uintptr_t a, size_t n, bool is_write, uintptr_t pc) {
-    if (!is_write && a == t_last_a && n == t_last_n && pc == t_last_pc && g_step == t_last_step) return true;
+    uint64_t now = g_mode == 1 ? g_seq_steps : g_step;
+    if (!is_write && a == t_last_a && n == t_last_n && pc == t_last_pc && now == t_last_step) return true;
     return false;
 }
 static inline void note_event(uintptr_t a, size_t n, bool is_write, uintptr_t pc) {
-    if (is_write) { t_last_a = 0; t_last_step = ~0ULL; } else { t_last_a = a; t_last_n = n; t_last_pc = pc; t_last_step = g_step; }
+    uint64_t now = g_mode == 1 ? g_seq_steps : g_step;
+    if (is_write) { t_last_a = 0; t_last_step = ~0ULL; } else { t_last_a = a; t_last_n = n; t_last_pc = pc; t_last_step = now; }
 }
 static inline bool active() { return t_tid >= 0 && t_in_sut > 0 && g_mode != 0 && t_in_rt == 0; }
 
@@ -291,8 +311,8 @@ static void on_access(uintptr_t a, size_t n, bool is_write, uintptr_t pc_abs) {
     Th &me = TH[t_tid];
     if (a >= me.stack_lo && a < me.stack_hi) return;        // own stack
     if (is_readonly(a)) return;
-    if (g_mode == 1) { g_seq_steps++; return; }
     if (repeat_read(a, n, is_write, pc_abs)) return;
+    if (g_mode == 1) { g_seq_steps++; note_event(a, n, is_write, pc_abs); return; }
     uint32_t pc = (uint32_t)(pc_abs - g_base);
     g_hot = (__start_eavdata && a >= (uintptr_t)__start_eavdata && a < (uintptr_t)__stop_eavdata) || (__start_eavbss && a >= (uintptr_t)__start_eavbss && a < (uintptr_t)__stop_eavbss);
     sched_point();
@@ -309,8 +329,8 @@ static void on_range(const void *p, size_t n, bool is_write, uintptr_t pc_abs) {
     Th &me = TH[t_tid];
     if (a >= me.stack_lo && a < me.stack_hi) return;
     if (is_readonly(a)) return;
-    if (g_mode == 1) { g_seq_steps++; return; }
     if (repeat_read(a, n, is_write, pc_abs)) return;
+    if (g_mode == 1) { g_seq_steps++; note_event(a, n, is_write, pc_abs); return; }
     uint32_t pc = (uint32_t)(pc_abs - g_base);
     sched_point();
     ev_hash(pc);
@@ -404,8 +424,11 @@ void run_concurrent(const Config &cfg, thread_fn fn, void *arg, Result &out) {
     out.switches.push_back(Switch{ 0, first, 0 });
     g_cur = first;
     wake(&TH[first].go);
-    bool ok = wait_on(&main_go, 20);
-    if (!ok) { fprintf(stderr, "WATCHDOG: baton holder %d stalled at step %llu\n", g_cur, (unsigned long long)g_step); _Exit(4); }
+    for (;;) {      // a stalled baton holder (no scheduling point for 20 s of wall time) can only be an unmodelled blocking primitive
+        uint64_t before = g_step;
+        if (wait_on(&main_go, 20)) break;
+        if (g_step == before) { fprintf(stderr, "WATCHDOG: baton holder %d stalled at step %llu\n", g_cur, (unsigned long long)g_step); _Exit(4); }
+    }
     for (int i = 0; i < cfg.nthreads; i++) { pthread_join(TH[i].th, nullptr); vc_join(VC[MAIN_TID], VC[i]); }
     g_mode = 0;
     out.steps = g_step;
@@ -494,7 +517,7 @@ static void atomic_point(const volatile void *a, uintptr_t pc) {
     if (!active()) return;
     RtGuard rg_;
     if (g_mode == 1) { g_seq_steps++; return; }
-    g_hot = true; sched_point(); g_hot = false; ev_hash((uint32_t)(pc - g_base)); g_res->atomic_ops++;
+    g_hot = true; g_spin_event = true; g_spin_pc = pc; sched_point(); g_spin_event = false; g_hot = false; ev_hash((uint32_t)(pc - g_base)); g_res->atomic_ops++;
     sync_acquire((const void *)a); sync_release((const void *)a);
 }
 #define ATOMICS(bits, T) \
@@ -613,6 +636,14 @@ int __wrap_setenv(const char *n, const char *v, int o) { on_pseudo_write(4, PC);
 int __wrap_unsetenv(const char *n) { on_pseudo_write(4, PC); return __real_unsetenv(n); }
 int __wrap_putenv(char *s) { on_pseudo_write(4, PC); return __real_putenv(s); }
 int __wrap_clearenv(void) { on_pseudo_write(4, PC); return __real_clearenv(); }
+
+// sched_yield(): the caller says it is waiting for somebody else
+int __wrap_sched_yield(void) {
+    if (!active() || g_mode != 2) return 0;
+    RtGuard rg_;
+    g_yield_now = true; sched_point(); ev_hash((uint32_t)(PC - g_base));
+    return 0;
+}
 
 // abort / assert inside a simulated thread: stop that thread, keep the simulation alive
 void __wrap_abort(void) {
